@@ -153,6 +153,7 @@ func c05Explore(src *choice.Src) *core.Result {
 		return d
 	}
 	shrunk := map[string]bool{}
+	faultNote := ""
 	if faultClass && len(t.files) > 0 {
 		for i, nf := 0, src.Weighted(0, 5, 2, 1); i < nf; i++ {
 			f := t.files[src.Intn(len(t.files))]
@@ -232,8 +233,14 @@ func c05Explore(src *choice.Src) *core.Result {
 		}
 	default:
 		if hardFault && cerr == nil {
-			res.Fail("C05", "fault-surfaces", "Create succeeded although an I/O fault was delivered to it", "faults delivered: %v; files %v", d, pathsOfList(list))
-			return c05Done(res, t, mod.m, faultClass)
+			// An I/O fault need not make Create fail (it may retry or not need the failed call); what it may
+			// not do is succeed with a wrong archive. Files whose content does not have the size they
+			// report are outside what the property promises.
+			res.Probes["create-succeeded-despite-fault"]++
+			if d["grew"] > 0 || len(shrunk) > 0 {
+				return c05Done(res, t, mod.m, faultClass)
+			}
+			faultNote = fmt.Sprintf(" (Create reported success although these faults were delivered to it: %v)", d)
 		}
 		if cfErr == nil && !hardFault && cerr != nil && len(shrunk) > 0 {
 			// the property promises success only for files whose content has the size they report; a file
@@ -274,7 +281,7 @@ func c05Explore(src *choice.Src) *core.Result {
 	archive := w.buf.Bytes()
 	entries, content, aerr := archiveEntries(archive)
 	if aerr != nil {
-		res.Fail("C05", "archive-readable", "Create succeeded but the archive cannot be read", "%v", aerr)
+		res.Fail("C05", "archive-readable", "Create succeeded but the archive cannot be read", "%v%s", aerr, faultNote)
 		return c05Done(res, t, mod.m, faultClass)
 	}
 	if v := ref.ZipRestrictionViolation(prefix, entries); v != "" {
@@ -286,7 +293,7 @@ func c05Explore(src *choice.Src) *core.Result {
 		got[strings.TrimPrefix(name, prefix)] = data
 	}
 	if describeMap(got) != describeMap(expect) || !sameMap(got, expect) {
-		res.Fail("C05", "archive-has-exactly-valid-files", "the archive does not hold exactly the valid files with their bytes", "archive %s; valid files %s", describeMap(got), describeMap(expect))
+		res.Fail("C05", "archive-has-exactly-valid-files", "the archive does not hold exactly the valid files with their bytes", "archive %s; valid files %s%s", describeMap(got), describeMap(expect), faultNote)
 		return c05Done(res, t, mod.m, faultClass)
 	}
 
